@@ -291,7 +291,12 @@ func (c *Ctx) Fail(sig, clause string, detail interface{}) bool {
 }
 
 // IsKnown reports whether sig is the signature of a listed known finding.
-func (c *Ctx) IsKnown(sig string) bool { c.mu.Lock(); defer c.mu.Unlock(); _, ok := c.known[sig]; return ok }
+func (c *Ctx) IsKnown(sig string) bool {
+	c.mu.Lock()
+	defer c.mu.Unlock()
+	_, ok := c.known[sig]
+	return ok
+}
 
 // NViolations returns the number of distinct new-violation signatures so far.
 func (c *Ctx) NViolations() int { c.mu.Lock(); defer c.mu.Unlock(); return len(c.vioSigs) }
